@@ -80,8 +80,9 @@ def binary (op : OpSym) (a b : Opd) (blank : Array Bool) : Sx :=
         | none => err "plan-does-not-broadcast"
       | .right => .list (head r ++ [rows r.lead item blank fun i => b.arr.get i * 8])
       | .dot =>
-        let v := dotValues a.d b.d r.lead a.arr b.arr
-        .list (head r ++ [rows r.lead item blank v.get])
+        match dotFull a.d b.d a.arr b.arr with
+        | some v => .list (head r ++ [rows r.lead item blank v.get])
+        | none => err "dot-does-not-broadcast"
 
 def unaryH (op : UnOp) (a : Opd) (blank : Array Bool) : Sx :=
   match unary op a.d with
